@@ -69,7 +69,7 @@ def texts(tier):
                      _TABMIX)
     prev = st.one_of(st.none(), st.none(), st.sampled_from(['a = 1\nb = 2\nc = a + b\nprint(c)\n', 'x = (\n', '', 'def f():\n    return 1\nf()\nf()\n']))
     return st.fixed_dictionaries({'text': base, 'offset': st.sampled_from([0, 0, 1, 2, 5]), 'prev': prev, 'exotic': st.sampled_from([0, 0, 1, 2, 3, 4, 5])},
-                                 optional={'explicit': st.booleans(), 'other_file': st.booleans()})
+                                 optional={'explicit': st.booleans(), 'other_file': st.booleans(), 'again': st.booleans()})
 
 
 STRATEGIES = {'texts': texts}
@@ -149,12 +149,25 @@ def judge(case):
         else:
             contextualize_report(text)
             shifted_kind, shifted = kind, ref
+            if case.get('again'):
+                # the very same text was verified a moment ago (and reported); the script now installs it with set_source()
+                try:
+                    verify()
+                except Exception:
+                    pass
+                MAIN_REPORT.feedback.clear()
+                MAIN_REPORT.ignored_feedback.clear()
+                classes.append('same-text-again-via-set_source')
     except Exception as e:
         MAIN_REPORT.full_clear()
         return Result([V('C12|setup-raises:%s' % type(e).__name__, 'sectioning raised %r for text %r' % (e, text[:200]))], True, classes)
     try:
         if k and case.get('other_file'):
             ok = verify(text, filename='helper.py')
+        elif not k and case.get('prev') is None and case.get('again'):
+            from pedal.source import set_source
+            set_source(text)
+            ok = MAIN_REPORT['source']['success'] if text.strip() else None
         else:
             ok = verify(text) if explicit else verify()
     except Exception as e:
